@@ -16,3 +16,4 @@ impl TextRange { fn empty(at: TextSize) -> TextRange { TextRange { start: at.raw
 pub struct ExCell<T: ?Sized>(core::cell::Cell<T>);
 pub assume_specification<T>[core::cell::Cell::<T>::set](c: &core::cell::Cell<T>, v: T);
 use core::cell::Cell;
+pub assume_specification<T>[core::cell::Cell::<T>::new](v: T) -> core::cell::Cell<T>;
